@@ -54,8 +54,8 @@ func instances(tier string, seed uint64) []inst {
 			in := &out[i]
 			switch lt := in.T.(type) {
 			case ast.ListType:
-				// a 7-element receiver and four seed-chosen ones
-				for k := 0; k < 5; k++ {
+				// a 7-element receiver and twelve seed-chosen ones
+				for k := 0; k < 13; k++ {
 					n := 7
 					if k > 0 {
 						n = r.Intn(8)
@@ -69,7 +69,7 @@ func instances(tier string, seed uint64) []inst {
 			case ast.StringType:
 				const alpha = "abcAB ,.01é"
 				rs := []rune(alpha)
-				for k := 0; k < 8; k++ {
+				for k := 0; k < 24; k++ {
 					n := r.Intn(9)
 					var sb strings.Builder
 					for j := 0; j < n; j++ {
@@ -337,9 +337,15 @@ func poolFor(name string, t ast.Type, recv rv, thorough bool) []rv {
 	return dedupe(out)
 }
 
-const maxTuples = 60
+// maxTuples caps the argument tuples per (receiver, member): 60 (quick), 200 (thorough).
+func maxTuples(thorough bool) int {
+	if thorough {
+		return 200
+	}
+	return 60
+}
 
-// argTuples is the cross product of the parameter pools (capped at maxTuples by a deterministic
+// argTuples is the cross product of the parameter pools (capped at maxTuples() by a deterministic
 // stride that keeps the first and the last tuple).
 func argTuples(params []ast.FunctionTypeParam, recv rv, thorough bool) [][]rv {
 	tuples := [][]rv{{}}
@@ -357,10 +363,10 @@ func argTuples(params []ast.FunctionTypeParam, recv rv, thorough bool) [][]rv {
 		}
 		tuples = next
 	}
-	if len(tuples) > maxTuples {
+	if mt := maxTuples(thorough); len(tuples) > mt {
 		var out [][]rv
-		for k := 0; k < maxTuples; k++ {
-			out = append(out, tuples[k*(len(tuples)-1)/(maxTuples-1)])
+		for k := 0; k < mt; k++ {
+			out = append(out, tuples[k*(len(tuples)-1)/(mt-1)])
 		}
 		tuples = out
 	}
@@ -379,15 +385,101 @@ type payload struct {
 	Recv    rv     `json:"recv"`
 	Member  string `json:"member,omitempty"`
 	Args    []rv   `json:"args,omitempty"`
-	Form    string `json:"form,omitempty"` // let | stmt | bound
+	Form    string `json:"form,omitempty"`   // let | stmt | bound | chain
+	Origin  string `json:"origin,omitempty"` // how the receiver is constructed: "" literal | json | cast
 	Print   bool   `json:"print,omitempty"`
 	Src     string `json:"src,omitempty"`
 	// Recvs: all representative receivers (part api)
 	Recvs []rv `json:"recvs,omitempty"`
 }
 
-// recvSetup renders the statements that bind `recv`.
-func recvSetup(c *litCtx, in inst, recv rv) []string {
+// jsonable reports whether a value can be written as JSON text that parse_json maps back onto it
+// (no floats: `[1.0]` comes back as ints; no options, ranges, functions).
+func jsonable(v rv) bool {
+	switch v.K {
+	case "int", "bool":
+		return true
+	case "str":
+		return !strings.ContainsAny(v.S, "\"\\'\n") && isASCII(v.S)
+	case "list":
+		for _, x := range v.L {
+			if !jsonable(x) {
+				return false
+			}
+		}
+		return true
+	case "obj", "anyobj":
+		for _, x := range v.M {
+			if !jsonable(x) {
+				return false
+			}
+		}
+		return true
+	}
+	return false
+}
+
+func jsonText(v rv) string {
+	switch v.K {
+	case "int":
+		return fmt.Sprint(v.I)
+	case "bool":
+		return fmt.Sprint(v.B)
+	case "str":
+		return "\"" + v.S + "\""
+	case "list":
+		parts := make([]string, len(v.L))
+		for i, x := range v.L {
+			parts[i] = jsonText(x)
+		}
+		return "[" + strings.Join(parts, ", ") + "]"
+	case "obj", "anyobj":
+		parts := []string{}
+		for _, k := range sortedKeys(v.M) {
+			parts = append(parts, "\""+k+"\": "+jsonText(v.M[k]))
+		}
+		return "{" + strings.Join(parts, ", ") + "}"
+	}
+	panic("c18: jsonText of " + v.K)
+}
+
+// originsOf lists the ways a receiver is constructed: "" = literal (any-objects: `new { ? }` plus
+// set calls), "json" = `'<text>'.parse_json() as T`, "cast" = object literal cast to `{ ? }`.
+// The property speaks about every runtime value of a type, whatever produced it.
+func originsOf(recv rv) []string {
+	out := []string{""}
+	switch recv.K {
+	case "list", "obj", "anyobj":
+		if jsonable(recv) && len(recv.L)+len(recv.M) >= 2 {
+			out = append(out, "json")
+		}
+	}
+	if recv.K == "anyobj" && len(recv.M) >= 1 {
+		ok := true
+		for _, x := range recv.M {
+			if typeText(typeOfRv(x)) == "" {
+				ok = false
+			}
+		}
+		if ok {
+			out = append(out, "cast")
+		}
+	}
+	return out
+}
+
+// recvSetup renders the statements that bind `recv`, followed by the marker probe(true) that tells
+// the oracle that the receiver was constructed.
+func recvSetup(c *litCtx, in inst, recv rv, origin string) []string {
+	tt := typeText(in.T)
+	switch origin {
+	case "json":
+		return []string{fmt.Sprintf("let recv: %s = %s.parse_json() as %s;", tt, strLit(jsonText(recv)), tt), "probe(true);"}
+	case "cast":
+		o := recv.clone()
+		o.K = "obj"
+		return []string{fmt.Sprintf("let recv: { ? } = %s as { ? };", c.lit(o, typeOfRv(o), true)), "probe(true);"}
+	}
 	if recv.K == "anyobj" {
 		out := []string{"let recv: { ? } = new { ? };"}
 		for i, k := range sortedKeys(recv.M) {
@@ -396,9 +488,9 @@ func recvSetup(c *litCtx, in inst, recv rv) []string {
 			out = append(out, fmt.Sprintf("let %s: %s = %s;", name, typeText(typeOfRv(v)), c.lit(v, typeOfRv(v), true)))
 			out = append(out, fmt.Sprintf("recv.set(%s, %s);", strLit(k), name))
 		}
-		return out
+		return append(out, "probe(true);")
 	}
-	return []string{fmt.Sprintf("let recv: %s = %s;", typeText(in.T), c.lit(recv, in.T, true))}
+	return []string{fmt.Sprintf("let recv: %s = %s;", tt, c.lit(recv, in.T, true)), "probe(true);"}
 }
 
 func renderable(t ast.Type) bool {
@@ -424,6 +516,16 @@ func assemble(c *litCtx, body []string) string {
 	}
 	sb.WriteString("}\n")
 	return sb.String()
+}
+
+// isOptAny reports whether t is `?any`.
+func isOptAny(t ast.Type) bool {
+	ot, ok := t.(ast.OptionType)
+	if !ok {
+		return false
+	}
+	k := ot.Inner.Kind()
+	return k == ast.AnyTypeKind || k == ast.UnknownTypeKind
 }
 
 // castFor returns the ` as T` suffix needed to use an any-typed result.
@@ -476,9 +578,9 @@ func checkType(adv ast.Type, e expect) ast.Type {
 }
 
 // callProgram renders the program of a member call / field read.
-func callProgram(in inst, recv rv, member string, mt ast.Type, args []rv, form string) (src string, print bool) {
+func callProgram(in inst, recv rv, origin string, member string, mt ast.Type, args []rv, form string) (src string, print bool) {
 	c := &litCtx{}
-	body := recvSetup(c, in, recv)
+	body := recvSetup(c, in, recv, origin)
 	ft, isFn := mt.(ast.FunctionType)
 	e := modelMember(recv, member, args)
 	if !isFn {
@@ -510,6 +612,11 @@ func callProgram(in inst, recv rv, member string, mt ast.Type, args []rv, form s
 		body = append(body, call+";", "probe(recv);")
 	case "bound":
 		body = append(body, "let r = "+call+";", "let q = [r];", "probe(q, recv);")
+	case "chain":
+		// `?any` results: no cast (a cast to ?T would wrap a bare value into Some and mask a member
+		// that forgot the option); the structure is observed through the option's own to_string
+		body = append(body, "let r = "+call+".to_string();", "probe(r, recv);", "println(r);")
+		print = true
 	default:
 		body = append(body, "let r = "+call+castFor(ft.ReturnType, e)+";", "probe(r, recv);")
 		if renderable(ft.ReturnType) {
@@ -521,9 +628,13 @@ func callProgram(in inst, recv rv, member string, mt ast.Type, args []rv, form s
 }
 
 // indexProgram renders recv[idx] / recv->key.
-func indexProgram(in inst, recv rv, part string, idx rv) (src string, print bool) {
+func indexProgram(in inst, recv rv, origin string, part string, idx rv, form string) (src string, print bool) {
 	c := &litCtx{}
-	body := recvSetup(c, in, recv)
+	body := recvSetup(c, in, recv, origin)
+	if part == "arrow" && form == "chain" {
+		body = append(body, "let r = (recv->"+idx.S+").to_string();", "probe(r, recv);", "println(r);")
+		return assemble(c, body), true
+	}
 	switch part {
 	case "idx-int":
 		body = append(body, fmt.Sprintf("let i: int = %s;", c.lit(idx, tInt(), true)), "let r = recv[i];", "probe(r, recv);")
@@ -601,6 +712,9 @@ const poisonCap = 40
 // tagsFor returns the tags of a case and whether one of its poisons is open.
 func tagsFor(p *payload) (tags []string, openKF string) {
 	tags = []string{"b:" + p.Backend, "t:" + p.Inst, "part:" + p.Part}
+	if p.Origin != "" {
+		tags = append(tags, "origin:"+p.Origin)
+	}
 	if p.Member != "" {
 		tags = append(tags, "m:"+p.Member)
 	}
